@@ -23,7 +23,7 @@
    values.  Real return addresses are numbers below 2^32, the two trampolines are MRET and PRET.
 
    Part 2 (replay side): utils/fstack.c fstack_entry / fstack_update / fstack_update_stack_count for
-   the setjmp / longjmp fix-up (one global setjmp_depth / setjmp_count pair).
+   the setjmp / longjmp fix-up (one global setjmp_depth / setjmp_count pair, shared by all tasks of a trace).
 
    Not modelled: filters/triggers (MCOUNT_FL_NORECORD frames), -finstrument-functions frames
    (cygprof_dummy), vfork save area, mtd_dtor, estimate-return, other architectures, threads (the
@@ -235,7 +235,10 @@ Definition kind_of (k : skind) (arg : N) : skd :=
 
 (* __plthook_entry(ret_addr = loc, child), ARG1 = arg.  Since fix (plthook: landing pads) a call made while
    in_exception is set first drops the entries of the frames unwound so far (parent_loc <= ret_addr),
-   exactly as __mcount_entry does. *)
+   exactly as __mcount_entry does.  Since fix 945cdf8/ae9d4a7 the C code does so only for a call whose return
+   slot lies above the frame recorded by the last exception wrapper (mtdp->exception_frame): calls from inside the
+   unwinder or the C++ runtime (hooked with --nest-libcall only) lie below it.  The programs of this model make no
+   such calls (they are untraced code), so the guard is taken as true; it is exercised end to end only. *)
 Definition plthook_push (s : lst) (k : skind) (child loc arg : N) : lst :=
   let e := new_ent s true child loc (kind_of k arg) in
   let m1 := auto_restore (inexc s) (e :: rs s) (upd (m s) loc PRET) in
@@ -937,6 +940,80 @@ Definition ok_replay_entries (es : list sev) (shown : list N) : bool :=
   match gt_run gt0 es with Some l => nlist_eqb (entry_depths es l) shown | None => false end.
 Definition agree_replay_entries (es : list sev) (shown : list N) : bool :=
   nlist_eqb (entry_depths es (rp_run rp0 es)) shown.
+
+(* ---------------------------------------------------------------- several tasks in one trace
+   setjmp_depth / setjmp_count are file-level statics of utils/fstack.c: every task (thread or process) of the
+   trace reads and writes the same pair, so the "latest setjmp" guessed at a longjmp may be another task's.
+   The merged stream is a list of (task, record); stack_count / display_depth / longjmp_pending are per task. *)
+Record tk := { k_sc : Z; k_dd : Z; k_pend : bool }.
+Definition tk0 := {| k_sc := 0; k_dd := 0; k_pend := false |}.
+Record rpm := { m_task : N -> tk; m_sd : Z; m_sc : Z }.
+Definition rpm0 := {| m_task := fun _ => tk0; m_sd := 0; m_sc := 0 |}.
+Definition view (s : rpm) (t : N) : rp :=
+  {| stack_count := k_sc (m_task s t); display_depth := k_dd (m_task s t);
+     setjmp_depth := m_sd s; setjmp_count := m_sc s; lj_pending := k_pend (m_task s t) |}.
+Definition rpm_step (s : rpm) (t : N) (e : sev) : rpm * N :=
+  let p := fst (rp_step (view s t) e) in
+  ({| m_task := fun x => if x =? t
+                         then {| k_sc := stack_count p; k_dd := display_depth p; k_pend := lj_pending p |}
+                         else m_task s x;
+      m_sd := setjmp_depth p; m_sc := setjmp_count p |}, snd (rp_step (view s t) e)).
+Fixpoint rpm_run (s : rpm) (es : list (N * sev)) : list N :=
+  match es with [] => [] | (t, e) :: r => snd (rpm_step s t e) :: rpm_run (fst (rpm_step s t e)) r end.
+(* ground truth: every task has its own call stack and its own jmp_bufs *)
+Fixpoint gtm_run (g : N -> gt) (es : list (N * sev)) : option (list N) :=
+  match es with
+  | [] => Some []
+  | (t, e) :: r =>
+      match gt_step (g t) e with
+      | None => None
+      | Some (g', d) =>
+          match gtm_run (fun x => if x =? t then g' else g x) r with None => None | Some l => Some (d :: l) end
+      end
+  end.
+(* the depths of the ENTRY records of task t *)
+Fixpoint entry_depths_of (t : N) (es : list (N * sev)) (ds : list N) : list N :=
+  match es, ds with
+  | (u, SEntry _) :: er, d :: dr => if u =? t then d :: entry_depths_of t er dr else entry_depths_of t er dr
+  | (_, SExit _) :: er, _ :: dr => entry_depths_of t er dr
+  | _, _ => []
+  end.
+(* shown: per task, the depths of its `f() {` / `f();` lines in replay's output *)
+Definition ok_replay_tasks (es : list (N * sev)) (shown : list (N * list N)) : bool :=
+  match gtm_run (fun _ => gt0) es with
+  | Some l => forallb (fun p : N * list N => nlist_eqb (entry_depths_of (fst p) es l) (snd p)) shown
+  | None => false
+  end.
+Definition agree_replay_tasks (es : list (N * sev)) (shown : list (N * list N)) : bool :=
+  forallb (fun p : N * list N => nlist_eqb (entry_depths_of (fst p) es (rpm_run rpm0 es)) (snd p)) shown.
+
+(* the resynchronisation restricted to a guess that was too deep (`diff > 0` instead of `diff != 0`): right for
+   one task - a later setjmp of the same task is never shallower than a live older one - and wrong as soon as
+   another task's shallower setjmp is the latest (refuted in ProofsReplay.v) *)
+Definition rp_step_shrink_only (p : rp) (e : sev) : rp * N :=
+  match e with
+  | SEntry _ => rp_step p e
+  | SExit d =>
+      let diff0 := if lj_pending p then (stack_count p - 1 - Z.of_N d)%Z else 0%Z in
+      let diff := if (0 <? diff0)%Z then diff0 else 0%Z in
+      let sc1 := (stack_count p - diff)%Z in
+      let dd1 := if (diff =? 0)%Z then display_depth p else Z.max 0 (display_depth p - diff) in
+      let sc2 := if (0 <? sc1)%Z then (sc1 - 1)%Z else sc1 in
+      let dd2 := if (0 <? dd1)%Z then (dd1 - 1)%Z else 0%Z in
+      ({| stack_count := sc2; display_depth := dd2;
+          setjmp_depth := setjmp_depth p; setjmp_count := setjmp_count p; lj_pending := false |}, Z.to_N dd2)
+  end.
+Definition rpm_step_with (step : rp -> sev -> rp * N) (s : rpm) (t : N) (e : sev) : rpm * N :=
+  let p := fst (step (view s t) e) in
+  ({| m_task := fun x => if x =? t
+                         then {| k_sc := stack_count p; k_dd := display_depth p; k_pend := lj_pending p |}
+                         else m_task s x;
+      m_sd := setjmp_depth p; m_sc := setjmp_count p |}, snd (step (view s t) e)).
+Fixpoint rpm_run_with (step : rp -> sev -> rp * N) (s : rpm) (es : list (N * sev)) : list N :=
+  match es with
+  | [] => []
+  | (t, e) :: r => snd (rpm_step_with step s t e) :: rpm_run_with step (fst (rpm_step_with step s t e)) r
+  end.
 
 (* checker for the record stream the implementation wrote in-process: classify its records with the kinds
    (setjmp / longjmp and their jmp_buf) the program's operations imply, then ask the ground truth and the
